@@ -464,9 +464,15 @@ class Model(EconomicObject):
         for cntry in self.CountryList:
             for sector in cntry.SectorList:
                 if add_country_code:
-                    sector.FullCode = cntry.Code + '_' + sector.Code
+                    new_code = cntry.Code + '_' + sector.Code
                 else:
-                    sector.FullCode = sector.Code
+                    new_code = sector.Code
+                if sector.FullCode not in ('', new_code):
+                    # The codes were generated earlier (for example by LogInfo()) and a Country was added since.
+                    # Names handed out under the old full code are cleaned up like the temporary aliases.
+                    for varname in sector.EquationBlock.GetEquationList():
+                        self._RegisterAlias(sector.FullCode + '__' + varname, sector, varname)
+                sector.FullCode = new_code
 
     @staticmethod
     def GetSectorCodeWithCountry(sector):
